@@ -222,6 +222,18 @@ func (ev *evaluator) evalRef(e Expr) Ref {
 		return Ref{T: x.T, cells: base.cells[o : o+x.T.nsc]}
 	case refExpr:
 		return x.refCustom(ev)
+	case *Cond:
+		if x.LV {
+			// C++ (MSL): an l-value conditional designates the selected operand
+			cv := ev.eval(x.C)
+			if cv.C[0].P != 0 {
+				ev.observe(cv.C[0].P, "undefined value used as the condition of ?:", x.Pos)
+			}
+			if cv.C[0].Bool() {
+				return ev.evalRef(x.A)
+			}
+			return ev.evalRef(x.B)
+		}
 	}
 	// not an addressable expression: materialise the value
 	v := ev.eval(e)
